@@ -1,11 +1,13 @@
-(* Obligation C20/poisson_cdf_tends_to_one.  Statement as printed by Coq from Inferno.C20.DistProofs; proof by reference.
+(* Obligation C20/poisson_cdf_tends_to_one.  Statement as printed by Coq from Inferno.C20.DistPoisson; proof by reference.
    This file contains nothing else, so the statement cannot be weakened quietly. *)
 From Coq Require Import Reals List ZArith Bool.
 From Coquelicot Require Import Coquelicot.
 From Flocq Require Import Core.Raux.
-From Inferno Require Import Base.Num Base.NumR C20.Model C20.Spec C20.DistProofs.
+From Inferno Require Import Base.Num Base.NumR Gen.Distributions C20.Model C20.Spec C20.DistPoisson.
 Import ListNotations.
 Open Scope R_scope.
-Theorem poisson_cdf_tends_to_one : forall rate : R, 0 < rate -> is_lim_seq (fun n : nat => poisson_cdf RN (INR n) rate) 1.
-Proof. exact (@Inferno.C20.DistProofs.poisson_cdf_tends_to_one). Qed.
+Theorem poisson_cdf_tends_to_one : forall (lg : R -> R) (g : R -> R -> R) (rate : R),
+  lgamma_spec lg ->
+  gammaincc_spec g -> 0 < rate -> is_lim_seq (fun n : nat => poisson_cdf RN g (INR n) rate) 1.
+Proof. exact (@Inferno.C20.DistPoisson.poisson_cdf_tends_to_one). Qed.
 Print Assumptions poisson_cdf_tends_to_one.
